@@ -159,6 +159,12 @@ def run(tier, seed):
                                 stage='table versions')
         n_pairs += 1
     rep.extra['table_version_twins'] = n_pairs
+    # operator-bearing Table D sequences as templates of their own (the random grammar keeps them out)
+    so = gen_opts(tier)
+    so.max_fields = 600
+    so.max_subsets = 3
+    runner.run_generated(rep, lambda ch: gmsg.gen_opseq_case(ch, so), check_case, 400 if tier == 'quick' else 20000, workers,
+                         stage='operators inside sequences')
     std.run_boundary(rep, tier, check_case)
     std.run_named(rep, gmsg.wide_field_cases(tier), check_case, 'wide fields', 'field_wider_than_53_bits')
     # corpus
